@@ -449,6 +449,7 @@ type Contract struct {
 	Modifies  []Clause // each clause: a location pattern
 	ModAny    bool     // "modifies *": no frame
 	Loops     map[int]*LoopSpec
+	InlinedLoops map[string]*LoopSpec // "<callee key>.<N>" -> spec for loop N of that callee when it is inlined into this function
 	CallSites []CallSiteSpec
 	CutAfter  string
 	Inline    bool
@@ -477,15 +478,17 @@ type LoopSpec struct {
 	Modifies   []Clause
 	ModAny     bool
 	HasMod     bool
+	ModFresh   bool // "modifies fresh": locations of objects allocated since function entry may change
 	Unroll     int
 }
 
 type Clause struct {
-	Src  string
-	E    SExpr
-	File string
-	Line int
-	Name string // optional label
+	Src     string
+	E       SExpr
+	File    string
+	Line    int
+	Name    string // optional label
+	Trusted bool   // ensures only: assumed at call sites, not checked against the body (listed as an assumption)
 }
 
 // PredDef is a spec-level definition (macro).
@@ -545,7 +548,7 @@ func NewSpecSet() *SpecSet {
 var clauseKeywords = map[string]bool{
 	"pred": true, "ghost": true, "axiom": true, "func": true, "requires": true, "ensures": true,
 	"modifies": true, "loop": true, "invariant": true, "inline": true, "trusted": true, "bounded": true,
-	"interface": true, "global": true, "assume": true, "lemma": true, "panics": true, "pure": true,
+	"interface": true, "global": true, "assume": true, "trustedensures": true, "lemma": true, "panics": true, "pure": true,
 	"method": true, "end": true, "results": true, "unroll": true, "envassume": true, "noframe": true, "sealed": true, "callsite": true, "cutafter": true,
 }
 
@@ -678,7 +681,7 @@ func (ss *SpecSet) ParseContractText(pkgPath, file, text string) error {
 			}
 			ss.Contracts[k] = cur
 			curLoop = nil
-		case "requires", "ensures", "panics", "assume":
+		case "requires", "ensures", "panics", "assume", "trustedensures":
 			if cur == nil {
 				return fmt.Errorf("%s:%d: %s outside func", file, c.n, kw)
 			}
@@ -690,6 +693,9 @@ func (ss *SpecSet) ParseContractText(pkgPath, file, text string) error {
 			case "requires":
 				cur.Requires = append(cur.Requires, cl)
 			case "ensures":
+				cur.Ensures = append(cur.Ensures, cl)
+			case "trustedensures":
+				cl.Trusted = true
 				cur.Ensures = append(cur.Ensures, cl)
 			case "panics":
 				cur.Panics = append(cur.Panics, cl)
@@ -710,6 +716,12 @@ func (ss *SpecSet) ParseContractText(pkgPath, file, text string) error {
 				continue
 			}
 			for _, part := range splitTop(rest) {
+				if strings.TrimSpace(part) == "fresh" && curLoop != nil {
+					// every location of an object allocated since the entry of the verified function
+					curLoop.ModFresh = true
+					curLoop.HasMod = true
+					continue
+				}
 				cl, err := mk(part, c.n)
 				if err != nil {
 					return err
@@ -729,6 +741,19 @@ func (ss *SpecSet) ParseContractText(pkgPath, file, text string) error {
 				return fmt.Errorf("%s:%d: loop outside func", file, c.n)
 			}
 			var n int
+			if i := strings.LastIndexByte(rest, '.'); i > 0 {
+				// "loop <callee key>.<N>": invariants for loop N of an inlined callee, in the context of this function
+				fmt.Sscanf(rest[i+1:], "%d", &n)
+				if n <= 0 {
+					return fmt.Errorf("%s:%d: loop needs ordinal >= 1", file, c.n)
+				}
+				curLoop = &LoopSpec{N: n}
+				if cur.InlinedLoops == nil {
+					cur.InlinedLoops = map[string]*LoopSpec{}
+				}
+				cur.InlinedLoops[strings.TrimSpace(rest[:i])+"."+fmt.Sprint(n)] = curLoop
+				continue
+			}
 			fmt.Sscanf(rest, "%d", &n)
 			if n <= 0 {
 				return fmt.Errorf("%s:%d: loop needs ordinal >= 1", file, c.n)
